@@ -278,6 +278,21 @@ def judge(lines, port, cred, obs, expect=None, cb=(False, False)):
     return v
 
 
+def numeric_involved(lines):
+    """does any line carry a bare address or CIDR atom (negated or not)?"""
+    for _m, pats, _k in lines:
+        for atom in pats.split(','):
+            a = atom.lstrip('!')
+            if a.startswith('|') or a.startswith('['):
+                continue
+            try:
+                ipaddress.ip_network(a, strict=False)
+                return True
+            except ValueError:
+                pass
+    return False
+
+
 def worker(job):
     files, ports, creds = job
     acc = core.Acc()
@@ -287,6 +302,11 @@ def worker(job):
                 try:
                     obs = connect_once(lines, port, cred)
                     viol = judge(lines, port, cred, obs)
+                    if port != 22 and numeric_involved(lines):
+                        # how bare address / CIDR atoms (asyncssh matches them numerically) combine with the
+                        # [host]:port form is not documented anywhere: hygiene only, as in C17
+                        viol = [v for v in viol if v[0] in ('loop-exception',)]
+                        acc.count('not-compared:address-atom-with-port')
                     out = (obs['connected'], obs['exc'])
                 except Livelock as exc:
                     viol, out = [('livelock', str(exc))], 'livelock'
@@ -421,7 +441,9 @@ def main(tier, seed):
             'unlisted host keys / CA keys / both x 7 credentials' % len(cfiles))
     return core.finish(PROP, tier, seed, 'model_checking', acc, t0, rule,
                        {'one_line_files': len(one), 'two_line_files': len(two), 'credentials': len(creds)},
-                       assumptions=['the predicate encodes the property wording (listed non-revoked key, or host '
+                       assumptions=['bare address / CIDR atoms combined with a non-default port are not judged (undocumented '
+                                    'interplay of numeric matching with the [host]:port form; same rule as C17)',
+                                    'the predicate encodes the property wording (listed non-revoked key, or host '
                                     'certificate of a trusted non-revoked CA, valid now, covering the host); a '
                                     '@revoked subject key inside an otherwise valid certificate is not part of it',
                                     'X.509 host certificates and GSS not driven'])
